@@ -105,6 +105,10 @@ type c06hist struct {
 	Seed uint64  `json:"seed,omitempty"` // ... or adaptive random generation inside the child
 	N    int     `json:"n,omitempty"`
 	Bad  int     `json:"bad,omitempty"` // percentage of deliberately failing operations
+	// os.RemoveAll unlinks in readdir order, which depends on the file system. The driver explores
+	// other orders by permuting the recorded unlink calls of one RemoveAll before replaying:
+	// 0 as recorded, 1 random, 2 data file first, 3 data file last.
+	Perm int `json:"perm,omitempty"`
 }
 
 type c06childOut struct {
@@ -508,6 +512,57 @@ func c06normalise(calls []fstrace.Call, root string, shard int, ids map[string]i
 	return out
 }
 
+// c06permute reorders, inside one operation's calls, the file unlinks of each RemoveAll (same parent
+// directory) according to mode; every order is one some file system's readdir could produce.
+func c06permute(group []fstrace.Call, mode int, r *verifhlib.Rng) {
+	if mode == 0 {
+		return
+	}
+	byDir := map[string][]int{}
+	var dirs []string
+	for i, c := range group {
+		if !c.Mutating || (c.Name != "unlink" && c.Name != "unlinkat") || strings.Contains(c.Flags, "AT_REMOVEDIR") {
+			continue
+		}
+		d := filepath.Dir(c.Path)
+		if _, ok := byDir[d]; !ok {
+			dirs = append(dirs, d)
+		}
+		byDir[d] = append(byDir[d], i)
+	}
+	for _, d := range dirs {
+		idx := byDir[d]
+		vals := make([]fstrace.Call, len(idx))
+		for j, i := range idx {
+			vals[j] = group[i]
+		}
+		switch mode {
+		case 1:
+			for j := len(vals) - 1; j > 0; j-- {
+				k := r.Intn(j + 1)
+				vals[j], vals[k] = vals[k], vals[j]
+			}
+		case 2, 3:
+			for j, v := range vals {
+				if filepath.Base(v.Path) == _blobFileName {
+					rest := append(append([]fstrace.Call{}, vals[:j]...), vals[j+1:]...)
+					if mode == 2 {
+						vals = append([]fstrace.Call{v}, rest...)
+					} else {
+						vals = append(rest, v)
+					}
+					break
+				}
+			}
+		}
+		for j, i := range idx {
+			seq := group[i].Seq
+			group[i] = vals[j]
+			group[i].Seq = seq
+		}
+	}
+}
+
 // ---------------------------------------------------------------- observables of a recovered store
 
 func c06optBytes(ok bool, b []byte) string {
@@ -540,7 +595,7 @@ func c06observe(dir string, cfg c06cfg) (coq string, ok bool, ncomplete int) {
 			panic("Has/List disagree with the blob map")
 		}
 		if !present {
-			keys = append(keys, "mkkobs false false 0 false [] []")
+			keys = append(keys, "ab")
 			continue
 		}
 		if listedC[key] != b.complete {
@@ -568,8 +623,12 @@ func c06observe(dir string, cfg c06cfg) (coq string, ok bool, ncomplete int) {
 			keys = append(keys, fmt.Sprintf("mkkobs true %s 999999 %s [] %s", verifhlib.B(b.complete), verifhlib.B(b.evictionBanned), verifhlib.List(mds)))
 			continue
 		}
+		mdq := verifhlib.List(mds)
+		if mdq == "[None; None; None]" {
+			mdq = "n3"
+		}
 		keys = append(keys, fmt.Sprintf("mkkobs true %s %d %s %s %s", verifhlib.B(b.complete), b.size, verifhlib.B(b.evictionBanned),
-			verifhlib.Bytes(data), verifhlib.List(mds)))
+			verifhlib.Bytes(data), mdq))
 	}
 	total := st.impl.size
 	// probe: with ample capacity every key can be created and completed again
@@ -592,7 +651,11 @@ func c06observe(dir string, cfg c06cfg) (coq string, ok bool, ncomplete int) {
 		}
 		probe = append(probe, fmt.Sprintf("(%s, %s, %s)", verifhlib.B(delOK), verifhlib.B(creOK), verifhlib.B(mcOK)))
 	}
-	return fmt.Sprintf("mkrobs true %d %s %s", total, verifhlib.List(keys), verifhlib.List(probe)), true, ncomplete
+	pq := verifhlib.List(probe)
+	if pq == "[(true, true, true); (true, true, true); (true, true, true)]" {
+		pq = "p3"
+	}
+	return fmt.Sprintf("mkrobs true %d %s %s", total, verifhlib.List(keys), pq), true, ncomplete
 }
 
 // ---------------------------------------------------------------- one case
@@ -684,6 +747,15 @@ func c06run(tmp string, idx int, h c06hist, kind string) c06result {
 	}
 	if len(cur) != 0 || len(perOp) != len(co.Ops) {
 		return fail(fmt.Errorf("marker split: %d groups for %d ops, %d trailing calls", len(perOp), len(co.Ops), len(cur)))
+	}
+	// explore RemoveAll orders other than this file system's readdir order
+	pr := verifhlib.NewRng(h.Seed ^ 0x5ca1ab1e)
+	storeCalls = storeCalls[:0]
+	for i, o := range co.Ops {
+		if o.K == c06Delete || o.K == c06Create {
+			c06permute(perOp[i], h.Perm, pr)
+		}
+		storeCalls = append(storeCalls, perOp[i]...)
 	}
 	if err := fstrace.SelfCheck(storeCalls, root, filepath.Join(base, "selfcheck")); err != nil {
 		return fail(fmt.Errorf("fstrace self-check: %v", err))
@@ -785,7 +857,17 @@ func c06run(tmp string, idx int, h c06hist, kind string) c06result {
 		kp = append(kp, verifhlib.Pair(strconv.Itoa(i), verifhlib.Ns(comps)))
 	}
 	cfgq := fmt.Sprintf("(mkcfg %s %d %d %s)", verifhlib.B(h.Cfg.Reboot), h.Cfg.Cap, c06NSfx, verifhlib.List(kp))
-	coq := fmt.Sprintf("mkcase %s %s %s %s %s", cfgq, verifhlib.List(sops), verifhlib.List(souts), verifhlib.List(strace), verifhlib.List(recs))
+	// run-length encode the per-crash-point observations
+	var rle []string
+	for i := 0; i < len(recs); {
+		j := i
+		for j < len(recs) && recs[j] == recs[i] {
+			j++
+		}
+		rle = append(rle, fmt.Sprintf("(%d%%nat, %s)", j-i, recs[i]))
+		i = j
+	}
+	coq := fmt.Sprintf("mkcase %s %s %s %s %s", cfgq, verifhlib.List(sops), verifhlib.List(souts), verifhlib.List(strace), verifhlib.List(rle))
 	var tags []string
 	if failedReopen > 0 {
 		tags = append(tags, "reopen-failed")
@@ -806,9 +888,10 @@ func c06driver(ctx *verifhlib.Ctx) {
 		kind string
 	}
 	var jobs []job
-	add := func(cfg c06cfg, kind string, ops ...c06op) {
-		jobs = append(jobs, job{c06hist{Cfg: cfg, Ops: ops}, kind})
+	addp := func(cfg c06cfg, perm int, kind string, ops ...c06op) {
+		jobs = append(jobs, job{c06hist{Cfg: cfg, Ops: ops, Perm: perm}, kind})
 	}
+	add := func(cfg c06cfg, kind string, ops ...c06op) { addp(cfg, 0, kind, ops...) }
 	cr := func(k int, sz uint64) c06op { return c06op{K: c06Create, Key: k, Size: sz} }
 	wr := func(k int, off int64, d string) c06op { return c06op{K: c06WriteAt, Key: k, Off: off, Data: []byte(d)} }
 	mc := func(k int) c06op { return c06op{K: c06MarkComplete, Key: k} }
@@ -826,14 +909,15 @@ func c06driver(ctx *verifhlib.Ctx) {
 	// C06_empty_size_refuted: crash between create and write of the `_size` sidecar
 	add(c06cfg{big, 0, true}, "seed-empty-size-sidecar", cr(0, 5))
 	// C06_leftover_dir_refuted: interrupted Delete of a complete blob (data gone, sidecars left)
-	add(c06cfg{big, 0, false}, "seed-leftover-complete-dir", cr(0, 3), wr(0, 0, "abc"), smd(0, 1, "m"), ban(0), mc(0), del(0))
+	addp(c06cfg{big, 0, false}, 2, "seed-leftover-complete-dir", cr(0, 3), wr(0, 0, "abc"), smd(0, 1, "m"), ban(0), mc(0), del(0))
 	// interrupted Delete of an incomplete blob: leftover data without `_size` / `_size` without data
-	add(c06cfg{big, 1, true}, "seed-leftover-incomplete-dir", cr(1, 4), wr(1, 0, "wxyz"), smd(1, 0, "i"), smd(1, 1, "j"), del(1))
+	addp(c06cfg{big, 1, true}, 2, "seed-leftover-incomplete-dir", cr(1, 4), wr(1, 0, "wxyz"), smd(1, 0, "i"), smd(1, 1, "j"), del(1))
+	addp(c06cfg{big, 1, true}, 3, "seed-leftover-incomplete-dir-data-last", cr(1, 4), wr(1, 0, "wxyz"), smd(1, 0, "i"), ban(1), del(1))
 	// typical life cycle with every sidecar kind, sharded
 	add(c06cfg{big, 2, true}, "seed-typical-sharded", cr(0, 4), wr(0, 0, "ab"), wr(0, 2, "cd"), smd(0, 0, "imm"), smd(0, 1, "mov"), ban(0), mc(0),
 		smd(0, 1, "mov2"), wmd(0, 1, 1, "ZZ"), unban(0), dmd(0, 1), cr(1, 2), del(0))
 	// eviction: capacity 10, two complete blobs, a third Create evicts the oldest (and a fourth both)
-	add(c06cfg{10, 1, false}, "seed-eviction", cr(0, 4), wr(0, 0, "0123"), mc(0), cr(1, 4), wr(1, 0, "4567"), smd(1, 1, "k"), mc(1), cr(2, 5), mc(2), cr(0, 10))
+	addp(c06cfg{10, 1, false}, 2, "seed-eviction", cr(0, 4), wr(0, 0, "0123"), mc(0), cr(1, 4), wr(1, 0, "4567"), smd(1, 1, "k"), mc(1), cr(2, 5), mc(2), cr(0, 10))
 	// no space: banned / incomplete blobs cannot be evicted; the evictable one goes first
 	add(c06cfg{10, 0, true}, "seed-no-space", cr(0, 4), mc(0), cr(1, 4), ban(1), mc(1), cr(2, 7), cr(2, 2))
 	// metadata atomicity: overwrite, leftover tmp, delete, in-place write
@@ -856,7 +940,8 @@ func c06driver(ctx *verifhlib.Ctx) {
 		if i%5 == 4 {
 			bad, kind = 35, "random-malformed"
 		}
-		jobs = append(jobs, job{c06hist{Cfg: cfg, Seed: r.U64(), N: n, Bad: bad}, kind + fmt.Sprintf("-ri%v-sh%d", cfg.Reboot, cfg.Shard)})
+		jobs = append(jobs, job{c06hist{Cfg: cfg, Seed: r.U64(), N: n, Bad: bad, Perm: []int{0, 1, 1, 2}[r.Intn(4)]},
+			kind + fmt.Sprintf("-ri%v-sh%d", cfg.Reboot, cfg.Shard)})
 	}
 
 	// run on a worker pool, emit in queue order
